@@ -212,8 +212,9 @@ func newDateTime(argumentList []Value, location *Time.Location) float64 {
 			return math.NaN()
 		}
 
-		if year >= 0 && year <= 99 {
-			year += 1900
+		// 15.9.3.1 / 15.9.4.3: the 1900 offset is decided on ToInteger(year), so 99.5 and -0.5 qualify too.
+		if integer := math.Trunc(year); integer >= 0 && integer <= 99 {
+			year = integer + 1900
 		}
 
 		time := Time.Date(int(year), dateToGoMonth(int(month)), int(day), int(hour), int(minute), int(second), int(millisecond)*1000*1000, location)
